@@ -160,6 +160,46 @@ let run_f () =
   done;
   String.concat " ; " (List.rev !outs)
 
+(* L <cap> <op>... : writer / view lifetimes (see harness runL) *)
+let run_l () =
+  let cap = zs (next ()) in
+  let st = ref (l_init cap bg) in
+  let chk () =
+    if !st.l_views = [] then "none" else
+      String.concat "," (List.map (fun v -> match l_read_view !st v with
+          | Some bs -> hex_of_bytes bs | None -> "USE-AFTER-FREE") !st.l_views) in
+  let outs = ref [] in
+  while !toks <> [] do
+    let t = next () in
+    let o =
+      if t = "chk" then "chk=" ^ chk () else
+        let op = match String.split_on_char ':' t with
+          | ["w"; h] -> let bs = bytes_of_hex h in LStep (FWrite (Some bs, len bs))
+          | ["wn"; s] -> LStep (FWrite (None, zs s))
+          | ["rs"; s] -> LStep (FReserve (zs s, None))
+          | ["rf"; h] -> let bs = bytes_of_hex h in LStep (FReserve (len bs, Some bs))
+          | ["view"] -> LView
+          | ["kill"] -> LKill
+          | ["reseat"; n] -> LReseat (zs n, n_of_int 0x77)
+          | _ -> failwith "bad op" in
+        let (st', out) = l_step true !st op in
+        st := st';
+        (match out with
+         | LOut FOk -> "ok" | LOut (FPtr off) -> "ptr=" ^ sz off | LOut FThrow -> "throw" | LOut FOob -> "oob"
+         | LViewed c -> "view=" ^ sz c | LDone -> "done" | LDead -> "dead") in
+    let tail = match !st.l_wr with
+      | Some (i, cur) ->
+        (match !st.l_heap i with
+         | Some bytes -> let w = { f_bytes = bytes; f_cur = cur } in
+           "|" ^ sz cur ^ "|" ^ sz (fbw_available w) ^ "|" ^ sz (fbw_capacity w)
+         | None -> "|freed")
+      | None -> "|-" in
+    outs := (o ^ tail) :: !outs
+  done;
+  let (st', _) = l_step true !st LKill in
+  st := st';
+  String.concat " ; " (List.rev (("final=" ^ chk ()) :: !outs))
+
 let run_w () =
   let buf = ref (Some []) and total = ref Z0 and sizes = ref [] in
   while !toks <> [] do
@@ -185,6 +225,7 @@ let () =
           | "R" :: rest -> toks := rest; run_r ()
           | "F" :: rest -> toks := rest; run_f ()
           | "W" :: rest -> toks := rest; run_w ()
+          | "L" :: rest -> toks := rest; run_l ()
           | _ -> "") with Failure m -> "driver-error:" ^ m in
       print_endline out
     done with End_of_file -> ()
